@@ -107,6 +107,13 @@ pub fn check_reproducible(b: &Built, rec: &Recorder, c: &mut Counters, p: &Param
             if st.truncated {
                 c.inc("inputs_truncated_by_budget");
             }
+            // history independence: the thread this runs on has seen other graphs (same size, other creation orders, same
+            // seeds); the same call on a thread without any history must give the same result
+            if let Ok(o) = on_fresh_thread_scoped(900, || exec_louvain(b, weighted, None, None, Some(seed), None, &[]).outcome) {
+                calls += 1;
+                c.inc("fresh_thread_comparisons");
+                outcomes.entry(o).or_insert_with(|| vec![u64::MAX]);
+            }
             c.addn("distinct_outcomes_total", outcomes.len() as u64);
             c.inc("inputs");
             if outcomes.len() > 1 {
@@ -464,6 +471,7 @@ pub fn c17_families(tier: &str) -> Vec<Family> {
     add(fam_primed(DS, 3, "u", &ORD_ONE));
     if tier == "quick" {
         add(fam(US, 3, "u", &ORD_ONE));
+        add(fam(US, 4, "u", &ORD_TWO)); // two creation orders alternate on one thread
         add(fam(US, 4, "u", &ORD_ONE));
         add(fam(DS, 3, "u", &ORD_ONE));
         add(fam(US, 3, "w12", &ORD_ONE));
